@@ -41,6 +41,12 @@ pub fn raw_messages() -> Vec<AnyMessage> {
     // history), a Leios-capable accept, and peer-sharing answers that are far
     // longer than anything the initiator asks for
     use pallas_network2::protocol as proto;
+    // peer-chosen values with an order between them: a block range that runs backwards, and one
+    // that ends at the origin (the enumerator only has forward ranges)
+    let hi = proto::Point::Specific(100, vec![0xaa; 32]);
+    let lo = proto::Point::Specific(5, vec![0x05; 32]);
+    out.push(AnyMessage::BlockFetch(proto::blockfetch::Message::RequestRange((hi.clone(), lo))));
+    out.push(AnyMessage::BlockFetch(proto::blockfetch::Message::RequestRange((hi, proto::Point::Origin))));
     let table = proto::handshake::n2n::VersionTable { values: [(13u64, crate::world::vdata())].into_iter().collect() };
     out.push(AnyMessage::Handshake(proto::handshake::Message::Propose(table)));
     out.push(crate::world::reply_msg(crate::world::R::Accept, 0));
